@@ -16,6 +16,12 @@ PalMissing == [r \in Residues \ {"M"} |-> "navy"]
 PalBadColour == [r \in Residues |-> IF r = "W" THEN "pink" ELSE "lime"]
 PalCase == [r \in Residues |-> IF r = "D" THEN "Red" ELSE "teal"]
 MCPalArgs == {PalValid, PalExtra, PalMissing, PalBadColour, PalCase}
+\* C16 instance: one object, two sequences, every argument of up to two positions in -2..N+2
+MCObjIdsOne == {1}
+MCPoolPhos == { <<"S","A","K","T","Y">>, <<"G","S","T","Y","S","G">> }
+MCSiteArgsPhos == {<<>>} \cup {<<a>> : a \in -2..8} \cup {<<a, b>> : a \in -2..8, b \in -2..8}
+MCPalArgsNone == {PalValid}
+MCSiteArgsPhosH == {<<a>> : a \in -1..7} \cup {<<4, 1>>, <<5, 5>>, <<0, 2, 9>>, <<3, 2, 3>>, <<>>}
 \* quick variants
 MCSiteArgsQ == { <<5, 3>>, <<0, 9>> }
 MCPalArgsQ == {PalExtra, PalBadColour}
